@@ -220,6 +220,13 @@ def maximalMissing (model impl : List MatchKey) : List MatchKey :=
   let maximal := model.filter fun x => !(model.any fun y => y.1 == x.1 && y != x && subBag x.2 y.2)
   maximal.filter fun x => !(impl.any fun y => y.1 == x.1 && subBag x.2 y.2)
 
+/-- (pattern, capture, node) triples that some model binding has and no reported match of that
+pattern has: a capture that can bind a node must bind it in some reported match. -/
+def neverBound (model impl : List MatchKey) : List (Nat × String × Nat) :=
+  let trip (ms : List MatchKey) := ms.flatMap fun m => m.2.map fun c => (m.1, c.1, c.2)
+  let have_ := trip impl
+  ((trip model).filter fun t => !have_.contains t).eraseDups
+
 /-- `…)? .` / `…* @c .`: an anchor right after a quantified child pattern. -/
 def quantifierBeforeAnchor (q : String) : Bool :=
   let toks := (tokenize (q.length + 1) q.toList #[]).toList
@@ -305,6 +312,14 @@ def runCase (s : St) : String :=
             else if quantifierBeforeAnchor s.query then "quantified-maximal-binding-missing-anchor-after-quantifier"
             else "quantified-maximal-binding-missing"
           s!"{s.id} judge=FAIL {kind} first={repr bad.head!} {info}"
+        else if quant && !(neverBound model impl).isEmpty then
+          -- any quantifier: a (capture, node) pair that some binding of the definition has must
+          -- occur in some reported match of that pattern
+          let kind := if trailingAnchorAfterGroup s.query then "incomplete-trailing-anchor-after-group"
+            else if anchorAfterSupertype s.sups s.query then "incomplete-anchor-after-supertype"
+            else if quantifierBeforeAnchor s.query then "quantified-maximal-binding-missing-anchor-after-quantifier"
+            else "quantified-capture-never-bound"
+          s!"{s.id} judge=FAIL {kind} first={repr (neverBound model impl).head!} {info}"
         else if cqJudge != "ok" then s!"{s.id} judge=FAIL capture-count-outside-quantifier {info}"
         else s!"{s.id} judge=ok {info}"
       | _ =>
